@@ -417,7 +417,7 @@ def c01_r3(ctx):
 
 
 # --------------------------------------------------------------------- R4
-SINKS = ("append", "add", "_collect", "heappush", "heapreplace", "insort", "final_fn", "final")  # final(top_searcher, docnum, score) takes the GLOBAL number
+SINKS = ("append", "add", "extend", "update", "_collect", "heappush", "heapreplace", "insort", "final_fn", "final")  # final(top_searcher, docnum, score) takes the GLOBAL number
 
 
 @rule("C01", "R4", "K11", "segment-local document numbers are globalised with the offset of their own segment",
@@ -491,10 +491,24 @@ def c01_r4(ctx):
             # locals holding sub-searcher document numbers: the parameter, and loop
             # variables over self.matches() / child.matches()
             raw = set([p] if p and m == "collect" else [])
+
+            def from_matches(e, seqs):
+                return any(norm.call_name(x) == "matches" for x in norm.calls_in(e)) or \
+                    any(isinstance(x, ast.Name) and x.id in seqs for x in ast.walk(e))
+            # collections of raw numbers: locals bound from an expression over matches() (list(self.matches()), sorted(...)), transitively
+            rawseq = set()
+            changed = True
+            while changed:
+                changed = False
+                for st in ast.walk(g.node):
+                    if isinstance(st, ast.Assign) and len(st.targets) == 1 and isinstance(st.targets[0], ast.Name) \
+                            and st.targets[0].id not in rawseq and from_matches(st.value, rawseq):
+                        rawseq.add(st.targets[0].id)
+                        changed = True
             for lp in ast.walk(g.node):
-                if isinstance(lp, ast.For) and isinstance(lp.target, ast.Name) and \
-                        any(norm.call_name(x) == "matches" for x in norm.calls_in(lp.iter)):
+                if isinstance(lp, (ast.For, ast.comprehension)) and isinstance(lp.target, ast.Name) and from_matches(lp.iter, rawseq):
                     raw.add(lp.target.id)
+            raw |= rawseq
             if not raw:
                 continue
             n += 1
